@@ -3,6 +3,8 @@ from props_common import BASE_TB
 PROP = {
     "modules": ["YorkieModel.Props.C04", "YorkieModel.Props.C04Conc"],
     "engines": [
+        # integrated engine: real client SDK + real in-process server (memory DB), traffic captured at the HTTP transport
+        {"name": "srv", "args": ["orc=c04"], "quick": {"n": 320, "workers": 8}, "thorough": {"n": 8000, "workers": 14}},
         {"name": "proto", "args": ["mix=schedules+malformed", "orc=c04"],
          "quick": {"n": 2400, "workers": 8, "args": ["shards=8"]},
          "thorough": {"n": 120000, "workers": 14, "args": ["shards=14"]}},
